@@ -276,8 +276,12 @@ func (d *Directory) GetOriginalDirectory(trim bool) (cdEntries, endOfDir []byte,
 			end.CDOffset -= uint32(delta)
 		}
 	}
-	_ = binary.Write(&weod, binary.LittleEndian, end64)
-	_ = binary.Write(&weod, binary.LittleEndian, loc64)
+	if end64.Signature != 0 {
+		_ = binary.Write(&weod, binary.LittleEndian, end64)
+	}
+	if loc64.Signature != 0 {
+		_ = binary.Write(&weod, binary.LittleEndian, loc64)
+	}
 	_ = binary.Write(&weod, binary.LittleEndian, end)
 	return wcd.Bytes(), weod.Bytes(), nil
 }
@@ -306,13 +310,14 @@ func (d *Directory) WriteDirectory(wcd, weod io.Writer, forceZip64 bool) error {
 		count++
 		size += uint64(len(blob))
 	}
-	if wcd != weod {
+	if weod == nil {
+		// only the file entries were asked for
+		return buf.Flush()
+	} else if wcd != weod {
 		if err := buf.Flush(); err != nil {
 			return err
 		}
 		buf.Reset(weod)
-	} else if weod == nil {
-		return nil
 	}
 	var end zipEndRecord
 	if count >= uint16Max || size >= uint32Max || cdoff >= uint32Max || forceZip64 {
